@@ -193,10 +193,12 @@ def struct_program(rng):
         codes = [rng.choice(CODES) for _ in range(rng.choice([1, 1, 2, 3, 4]))]
         if rng.random() < 0.3:
             codes = codes + [codes[-1]] * rng.randint(1, 3)
+        elif rng.random() < 0.3:
+            codes = codes * rng.randint(2, 3)          # a repeated block, may be written m*<block>
         vals = []
         for ch in codes:
             if ch in 'efd':
-                f = interesting_float(rng)
+                f = interesting_float(rng) if rng.random() < 0.7 else rng.choice([0.0, -0.0])
                 vals.append(enc_float(f))
             else:
                 lo, hi = RANGE[ch]
@@ -204,7 +206,7 @@ def struct_program(rng):
                 if rng.random() < 0.04:
                     v = rng.choice([lo - 1, hi + 1])
                 vals.append(enc_int(v))
-        style = rng.getrandbits(2)
+        style = rng.getrandbits(3)
         calls.append({'op': 'packstruct', 'rid': 'p', 'sa': [prefix] + codes, 'va': vals, 'ia': [style], 'drop': ['*']})
         calls.append({'op': 'unpackstruct', 't': 'p', 'sa': [prefix] + codes, 'ia': [style]})
         calls.append({'op': 'tobytes', 't': 'p', 'sa': [rng.choice(['tobytes', 'prop', 'bytes()'])]})
